@@ -594,29 +594,142 @@ def appendNew {α} (errE : Err) (name : α → String) (acc : List α) : List α
   | [] => pure acc
   | x :: xs => if acc.any (fun y => name y == name x) then .error errE else appendNew errE name (acc ++ [x]) xs
 
-/-- `_extend_<kind>_type`: every extension must be of the live type's kind; members are merged in
-    document order; new members are built against the types visible BEFORE extension -/
-def extendType (env : Env) (exts : List TypeDef) (t : TypeD) : R TypeD := do
+/-! ### default values after extension (fix C14-T15)
+
+`_default_value` retries a literal which is not a value of the un-extended type in the extended one, and
+`_extended_default_value` evaluates every default written in SDL AGAIN in the extended type (keeping the current
+value when that fails).  By name: the value over the merged definitions, else the value over the definitions. -/
+
+/-- members of all extensions of `t`, appended in document order (the definition the extended type is built from) -/
+def mergeExt (exts : List TypeDef) (t : TypeDef) : TypeDef :=
+  (exts.filter (·.name == t.name)).foldl (fun acc e =>
+    { acc with interfaces := acc.interfaces ++ e.interfaces, fields := acc.fields ++ e.fields, members := acc.members ++ e.members,
+               values := acc.values ++ e.values, inputFields := acc.inputFields ++ e.inputFields }) t
+
+/-- by-name view of the extended types -/
+def Env.extended (env : Env) (exts : List TypeDef) : Env :=
+  { findDef := fun n => (env.findDef n).map (mergeExt exts), findAdditional := env.findAdditional }
+
+mutual
+/-- does `value_from_ast(lit, ty)` over the extended types resolve the (lazily extended) type `hide`?  `_extract_input_object`
+    reads `field.type` of every field that is given, and of every field that is neither given nor defaulted. -/
+def touches (env : Env) (hide : String) : Nat → Lit → Ty → Bool
+  | 0, _, _ => false
+  | fuel+1, lit, ty =>
+    match ty with
+    | .nonNull t => (match lit with | .null => false | _ => touches env hide fuel lit t)
+    | .list t =>
+      match lit with
+      | .null => false
+      | .list items => touchesItems env hide fuel items t
+      | _ => touches env hide fuel lit t
+    | .named n =>
+      match lit with
+      | .obj fs =>
+        match env.findAdditional n with
+        | some _ => false
+        | none =>
+          match env.findDef n with
+          | some d => if d.kind == .input then touchesFields env hide fuel fs d.inputFields else false
+          | none => false
+      | _ => false
+
+def touchesItems (env : Env) (hide : String) : Nat → List Lit → Ty → Bool
+  | 0, _, _ => false
+  | _, [], _ => false
+  | fuel+1, x :: xs, t => touches env hide fuel x t || touchesItems env hide fuel xs t
+
+def touchesFields (env : Env) (hide : String) : Nat → List (String × Lit) → List InputValDef → Bool
+  | 0, _, _ => false
+  | _, _, [] => false
+  | fuel+1, given, f :: fs =>
+    (match lookupLast given f.name with
+      | some l => f.type.base == hide || touches env hide fuel l f.type
+      | none => match f.default with | some _ => false | none => f.type.base == hide)
+    || touchesFields env hide fuel given fs
+end
+
+/-- `extend_type` raises on a type whose extension is in progress.  The fields of an input type are extended eagerly,
+    with the type itself in progress: `hideFor` is that type (none for the other kinds, whose members are extended
+    when no input type is in progress) -/
+def hideFor (kind : Kind) (name : String) : Option String :=
+  if kind == .input then some name else none
+
+/-- the evaluation of `lit` at `ty` in the extended types needs the type in progress -/
+def needsHidden (eX : Env) (hide : Option String) (lit : Lit) (ty : Ty) : Bool :=
+  match hide with
+  | none => false
+  | some h => ty.base == h || touches eX h coerceFuel lit ty
+
+def defaultValueX (eB eX : Env) (hide : Option String) (lit : Lit) (ty : Ty) : R J :=
+  if needsHidden eX hide lit ty then defaultValue eB lit ty
+  else match defaultValue eX lit ty with
+  | .ok v => .ok v
+  | .error (.internal c) => .error (.internal c)
+  | .error (.lib _) => defaultValue eB lit ty
+
+def buildArgumentX (eB eX : Env) (hide : Option String) (a : InputValDef) : R ArgD := do
+  checkRef eB a.type
+  match a.default with
+  | none => pure { name := a.name, type := a.type, desc := a.desc }
+  | some l => do
+    let v ← defaultValueX eB eX hide l a.type
+    pure { name := a.name, type := a.type, hasDefault := true, default := v, desc := a.desc }
+
+def buildFieldX (eB eX : Env) (hide : Option String) (f : FieldDef) : R FieldD := do
+  checkRef eB f.type
+  let args ← f.args.mapM (buildArgumentX eB eX hide)
+  let r ← deprecationReason f.dirs
+  pure { name := f.name, type := f.type, args := args, deprecated := fieldDeprecation r, desc := f.desc }
+
+def buildTypeDefX (eB eX : Env) (hide : Option String) (d : TypeDef) : R TypeD := do
+  match d.kind with
+  | .scalar => pure { kind := .scalar, name := d.name, desc := d.desc }
+  | .object => do
+    let fs ← d.fields.mapM (buildFieldX eB eX hide)
+    checkNames eB d.interfaces
+    pure { kind := .object, name := d.name, desc := d.desc, interfaces := d.interfaces, fields := fs }
+  | .interface => do
+    let fs ← d.fields.mapM (buildFieldX eB eX hide)
+    pure { kind := .interface, name := d.name, desc := d.desc, fields := fs }
+  | .union => do
+    checkNames eB d.members
+    pure { kind := .union, name := d.name, desc := d.desc, members := d.members }
+  | .enum => do
+    failIf (hasDup (d.values.map (·.name))) (.lib .sdl)
+    let vs ← d.values.mapM buildEnumValue
+    pure { kind := .enum, name := d.name, desc := d.desc, values := vs }
+  | .input => do
+    let fs ← d.inputFields.mapM (buildArgumentX eB eX hide)
+    pure { kind := .input, name := d.name, desc := d.desc, inputFields := fs }
+
+def buildDirectiveX (eB eX : Env) (d : DirDef) : R DirectiveD := do
+  let args ← d.args.mapM (buildArgumentX eB eX none)
+  pure { name := d.name, locations := d.locations, args := args, desc := d.desc }
+
+/-- `_extend_<kind>_type`: every extension must be of the live type's kind; members are merged in document order;
+    a new member is built against the types visible BEFORE extension, with the retry of `_default_value` -/
+def extendTypeX (eB eX : Env) (hide : Option String) (exts : List TypeDef) (t : TypeD) : R TypeD := do
   let mine := exts.filter (·.name == t.name)
   failIf (mine.any (fun e => e.kind != t.kind)) (.lib .ext)
   match t.kind with
   | .scalar => pure t
   | .object => do
     let fs ← mine.foldlM (fun acc e => do
-      let new ← e.fields.mapM (buildField env)
+      let new ← e.fields.mapM (buildFieldX eB eX hide)
       appendNew (.lib .ext) (·.name) acc new) t.fields
     let is ← mine.foldlM (fun acc e => do
-      checkNames env e.interfaces
+      checkNames eB e.interfaces
       appendNew (.lib .ext) id acc e.interfaces) t.interfaces
     pure { t with fields := fs, interfaces := is }
   | .interface => do
     let fs ← mine.foldlM (fun acc e => do
-      let new ← e.fields.mapM (buildField env)
+      let new ← e.fields.mapM (buildFieldX eB eX hide)
       appendNew (.lib .ext) (·.name) acc new) t.fields
     pure { t with fields := fs }
   | .union => do
     let ms ← mine.foldlM (fun acc e => do
-      checkNames env e.members
+      checkNames eB e.members
       appendNew (.lib .ext) id acc e.members) t.members
     pure { t with members := ms }
   | .enum => do
@@ -626,9 +739,24 @@ def extendType (env : Env) (exts : List TypeDef) (t : TypeD) : R TypeD := do
     pure { t with values := vs }
   | .input => do
     let fs ← mine.foldlM (fun acc e => do
-      let new ← e.inputFields.mapM (buildArgument env)
+      let new ← e.inputFields.mapM (buildArgumentX eB eX hide)
       appendNew (.lib .ext) (·.name) acc new) t.inputFields
     pure { t with inputFields := fs }
+
+/-- the extended type registered in the new schema: a type of the document is the type of its merged definition
+    with every default literal evaluated again (`_extended_default_value`); a supplied type keeps its values -/
+def reDefault (eB eX : Env) (hide : Option String) (exts : List TypeDef) (t : TypeD) : R TypeD :=
+  match eB.findAdditional t.name, eB.findDef t.name with
+  | none, some d => buildTypeDefX eB eX hide (mergeExt exts d)
+  | _, _ => pure t
+
+def directiveDefs (doc : Doc) : List DirDef := doc.filterMap fun | .directive d => some d | _ => none
+
+/-- `extend_directive`: argument defaults are evaluated again in the extended types -/
+def reDefaultDirective (eB eX : Env) (doc : Doc) (d : DirectiveD) : R DirectiveD :=
+  match (directiveDefs doc).find? (·.name == d.name) with
+  | some dd => buildDirectiveX eB eX dd
+  | none => pure d
 
 /-- `extend_schema(schema, ast, strict=False)` as called by `build_schema` -/
 def extendSchema (env : Env) (live : Live) (doc : Doc) (additional : List TypeD := []) : R Live := do
@@ -640,11 +768,14 @@ def extendSchema (env : Env) (live : Live) (doc : Doc) (additional : List TypeD 
     -- the definitions and the supplied types again, i.e. `env`
     -- a specified type is never extended, but an extension of a different KIND is still an error (fix C11-7)
     failIf (texts.any (fun e => isDefaultName e.name && e.kind != builtinKind e.name)) (.lib .ext)
-    let types ← live.types.mapM (extendType env texts)
+    let envX := env.extended texts
+    let checked ← live.types.mapM (fun t => extendTypeX env envX (hideFor t.kind t.name) texts t)
+    let types ← checked.mapM (fun t => reDefault env envX (hideFor t.kind t.name) texts t)
+    let dirs ← live.directives.mapM (reDefaultDirective env envX doc)
     failIf (hasEagerCycle types) (.lib .sdl)               -- circular-reference guard of extend_type
     let roots ← sexts.foldlM (fun r se => addOps (fun n => isDefaultName n || types.any (·.name == n)) (.lib .ext) r se.ops) live.roots
     -- supplied types referenced only from extension blocks are registered through the closure of the new schema
-    pure { live with types := types ++ referencedAdditional additional types live.directives roots, roots := roots }
+    pure { live with types := types ++ referencedAdditional additional types dirs roots, directives := dirs, roots := roots }
 
 /-! ### `build_schema` (without the final `schema.validate()`) -/
 
